@@ -21,6 +21,7 @@ import (
 //   fin ok|err  the executing call's user function returns its rows / fails
 //   discard X   start a Worker.Discard call X (the store's Discard is held at a gate)
 //   dfin        release the Discard call held at the gate
+//   cancel X    cancel the context of call X
 // after every op the harness waits for the worker to come to rest and records
 //   st=<task state> out=<0|1: the store holds the output> exec=<call executing|-> replies=<X:ok|X:err|X:none …>
 // (replies: the calls that returned during this op, sorted).
@@ -76,6 +77,7 @@ func runC12wk(c string) string {
 	replies := make(chan reply, 64)
 	ctx, cancel := context.WithCancel(context.Background())
 	defer cancel()
+	cancels := map[string]context.CancelFunc{}
 	execCall := "-"   // the call whose user function is at the gate
 	pendingRun := ""  // the most recently started Run call that has neither returned nor been seen executing
 	var waiting []string
@@ -126,8 +128,10 @@ func runC12wk(c string) string {
 		case "run":
 			who := f[1]
 			pendingRun = who
+			cctx, ccancel := context.WithCancel(ctx)
+			cancels[who] = ccancel
 			go func() {
-				err := v.Run(ctx, root)
+				err := v.Run(cctx, root)
 				what := "ok"
 				if err != nil {
 					what = "err"
@@ -147,6 +151,11 @@ func runC12wk(c string) string {
 				_ = v.Discard(ctx, root)
 				replies <- reply{who, "none"}
 			}()
+		case "cancel":
+			// the context of call X is cancelled (its client went away)
+			if cf := cancels[f[1]]; cf != nil {
+				cf()
+			}
 		case "dfin":
 			release()
 			release, dentered = v.HoldDiscards()
